@@ -27,6 +27,8 @@ try:
     rc = p.returncode
     lines = [l for l in p.stdout.splitlines() if l.startswith(("VIOLATION", "KNOWN-FINDING", "INFRA", "[violation]"))]
     print("%s %s %s rc=%d" % ({0: "MISSED", 1: "CAUGHT", 2: "INFRA"}.get(rc, "?"), pid, d, rc))
+    if os.environ.get("MUTTRY_FULL"):
+        print(p.stdout[-6000:])
     for l in lines[:5]:
         print("   ", l[:400])
     if rc == 2:
